@@ -65,7 +65,7 @@ EvCreate ==
      /\ Ev.res \in {"ok", "EEXIST", "ENAMETOOLONG"}
 EvWrite ==
   /\ Ev.k = "write" /\ Consume
-  /\ LET p == Ev.p IN pc[p] = "write" /\ slot[p] = Ev.slot /\ Ev.res = "ok" /\ Write(p) /\ nfaults' = nfaults
+  /\ LET p == Ev.p IN pc[p] = "write" /\ slot[p] = Ev.slot /\ Ev.res = "ok" /\ (Write(p) \/ WritePart(p)) /\ nfaults' = nfaults
 EvClose ==
   /\ Ev.k = "close" /\ Consume
   /\ LET p == Ev.p IN pc[p] = "close" /\ slot[p] = Ev.slot /\ Ev.res = "ok" /\ Close(p) /\ nfaults' = nfaults
